@@ -1,4 +1,5 @@
 import SafeC.Proofs.Strcpy
+import SafeC.Proofs.CopyWrappers
 /-!
 # C01 — no write ever lands outside the destination the caller declared
 
@@ -43,6 +44,45 @@ theorem wcscpy_s_C01 (cfg : Cfg) (dest dmax src : Nat) (st : St) (hs : Setting s
     (hrw : dest ≠ 0 → RW st dest dmax) :
     ∃ code st', exec (wcscpy_s cfg dest dmax src none) st = .ok (code, st') ∧ Holds st st' := by
   rw [wcscpy_eq]; exact strcpyG_C01 _ cfg dest dmax src st hs hrw
+
+theorem of_safePost {cfg : Cfg} {dest dmax code : Nat} {st st' : St} {p : Prog Nat} (hs : Setting st)
+    (he : exec p st = .ok (code, st')) (hp : SafePost cfg dest dmax st st' code) : Holds st st' := by
+  have hstr : st'.strays = [] := by rw [hp.strays, hs.clean]
+  exact ⟨by simp [hstr], exec_frame_clean _ st he hs.clean hstr⟩
+
+/-- strncpy_s: all dest/dmax/src/slen, all placements and contents -/
+theorem strncpy_s_C01 (cfg : Cfg) (dest dmax src slen : Nat) (st : St) (hs : Setting st)
+    (hrw : dest ≠ 0 → RW st dest dmax) :
+    ∃ code st', exec (strncpy_s cfg dest dmax src slen none none) st = .ok (code, st') ∧ Holds st st' := by
+  obtain ⟨code, st', he, hp, _⟩ := strncpyG_safe _ cfg dest dmax src slen st hs.all hrw (Nat.le_refl _)
+  exact ⟨code, st', he, of_safePost hs he hp⟩
+
+/-- strcat_s: all arguments, dest terminated or not, all placements -/
+theorem strcat_s_C01 (cfg : Cfg) (dest dmax src : Nat) (st : St) (hs : Setting st)
+    (hrw : dest ≠ 0 → RW st dest dmax) :
+    ∃ code st', exec (strcat_s cfg dest dmax src none) st = .ok (code, st') ∧ Holds st st' := by
+  obtain ⟨code, st', he, hp, _⟩ := strcatG_safe _ cfg dest dmax src st hs.all hrw
+  exact ⟨code, st', he, of_safePost hs he hp⟩
+
+/-- strncat_s (slen ≠ 0; the slen = 0 path is the `strncat-slen0-handler-eok` finding, it writes
+only inside dest as well but is not covered by `SafePost`) -/
+theorem strncat_s_C01 (cfg : Cfg) (dest dmax src slen : Nat) (st : St) (hs : Setting st)
+    (hrw : dest ≠ 0 → RW st dest dmax) (hslen : slen ≠ 0) :
+    ∃ code st', exec (strncat_s cfg dest dmax src slen none none) st = .ok (code, st') ∧ Holds st st' := by
+  obtain ⟨code, st', he, hp, _⟩ := strncatG_safe _ cfg dest dmax src slen st hs.all hrw hslen (Nat.le_refl _)
+  exact ⟨code, st', he, of_safePost hs he hp⟩
+
+theorem wcscat_eq (cfg : Cfg) (dest dmax src : Nat) :
+    wcscat_s cfg dest dmax src none = strcatG RSIZE_MAX_WSTR cfg dest dmax src none := by
+  unfold wcscat_s strcatG chkDmaxW chkDmaxClear chkDmaxClearG failS
+  rfl
+
+theorem wcscat_s_C01 (cfg : Cfg) (dest dmax src : Nat) (st : St) (hs : Setting st)
+    (hrw : dest ≠ 0 → RW st dest dmax) :
+    ∃ code st', exec (wcscat_s cfg dest dmax src none) st = .ok (code, st') ∧ Holds st st' := by
+  rw [wcscat_eq]
+  obtain ⟨code, st', he, hp, _⟩ := strcatG_safe _ cfg dest dmax src st hs.all hrw
+  exact ⟨code, st', he, of_safePost hs he hp⟩
 
 /-- non-vacuity: a concrete state meets the hypotheses (dest = 100, dmax = 5, src = 200) -/
 def exSt : St :=
